@@ -114,10 +114,49 @@ pub fn run(ctx: &Ctx, rep: &mut Report) {
         let mut base = vec![0u8; 21];
         let mut tally = Tally::default();
         let mut n = 0u64;
+        // the "station without a position fix" context: every optional value of the message at its
+        // 'not available' code, every other field at one of its notable values (time stamp 60..63,
+        // navigation status 15, hour 24, extremes ...) chosen by a hash of the state - what a unit
+        // with no GNSS reception transmits, and the combination a decoder is most likely to treat
+        // specially. Each state of the exhaustive sweep is decoded once in this context as well.
+        let nofix: Vec<(usize, usize, Vec<u64>)> = {
+            let b = crate::gen::BRANCHES.iter().find(|b| b.t == t && b.len == 168).expect("168-bit layout");
+            super::c04::fields_of(b, &mut r, None)
+                .iter()
+                .filter(|f| f.start >= 6 && (f.start + f.width) as usize <= start && f.width <= 40)
+                .map(|f| {
+                    let w = f.width as usize;
+                    let vals = match super::c11::sentinel_of(f.key, w) {
+                        Some(sv) => vec![sv],
+                        None if matches!(f.key, "timestamp" | "utc_second") => vec![60, 61, 62, 63],
+                        None => super::c04::notable_values(f.key, w),
+                    };
+                    (f.start as usize, w, vals)
+                })
+                .filter(|(_, _, v)| !v.is_empty())
+                .collect()
+        };
+        rep.count_n(&format!("t{}:no-fix-context-fields", t), nofix.len() as u64);
         for state in 0..total {
             // contiguous blocks of 1024 states per shard
             if (state / 1024) % ctx.nshards != ctx.shard {
                 continue;
+            }
+            {
+                let mut h = (state ^ ((t as u64) << 32)).wrapping_mul(0x9E37_79B9_7F4A_7C15);
+                let mut nf = vec![0u8; 21];
+                nf[0] = t << 2;
+                for (fs, fw, vals) in &nofix {
+                    h ^= h >> 29;
+                    h = h.wrapping_mul(0xBF58_476D_1CE4_E5B9);
+                    put_bits(&mut nf, *fs, *fw, vals[((h >> 33) % vals.len() as u64) as usize]);
+                }
+                n += 1;
+                put_bits(&mut nf, start, width, state);
+                if n % 512 == 3 {
+                    rep.class(format!("t{}|no-fix-context", t));
+                }
+                judge_state(rep, t, has_selector, &nf, state, n, &mut tally);
             }
             for cx in 0..contexts {
                 if cx % 2 == 1 {
@@ -126,7 +165,7 @@ pub fn run(ctx: &Ctx, rep: &mut Report) {
                     for (i, byte) in base.iter_mut().enumerate() {
                         *byte = if i == 0 { (t << 2) | (!*byte & 3) } else { !*byte };
                     }
-                } else if n % 64 == 0 || cx > 0 {
+                } else if n % 64 == 0 || cx > 0 || base[0] >> 2 != t {
                     base = r.bytes(21);
                     base[0] = (t << 2) | (base[0] & 3);
                 }
